@@ -246,21 +246,41 @@ def _topk_result(ex, st, env):
     return (fresh_array((k,), 'int', 'top_rows'), fresh_array((k,), 'int', 'top_cols'))
 
 
-# ASSUMED contract (numpy argpartition / unravel_index are outside the modelled subset; validated by the bounded tier):
-# for 0 <= k < a.size, top_k(a, k, reverse=True) returns k pairwise different cells of the 2-d array, each at least as
-# large as every cell that is not returned.  The last clause is the pigeon-hole consequence of the first three
-# (if at least k cells are finite, none of the k largest is -inf).
+# contract of multisort.top_k, PROVED from models of ravel / np.argpartition / np.unravel_index (pyvc.lib): for 1 <= k < a.size,
+# top_k(a, k, reverse=True) returns k pairwise different cells of the 2-d array, each at least as large as every cell that is not
+# returned.
 CONTRACTS[(MS_PATH, 'top_k')] = Contract(
     params={'a': 'nd2:xreal2', 'k': 'int', 'reverse': 'const:True'}, result=_topk_result,
-    requires=['0 <= k', 'k < a.shape[0] * a.shape[1]', 'reverse == True'],
+    theory=lambda ex, st: ({'NFINITE': SpecFunc(lambda x: z3.Int('n_finite_cells'), 'NFINITE')}, []),
+    requires=['1 <= k', 'k < a.shape[0] * a.shape[1]', 'reverse == True'],
+    lemmas=[
+        # a cell whose position in the partition order is among the last k is one of the returned cells
+        {'name': 'last-k-positions-are-returned',
+         'stmt': 'forall(lambda r, c: implies(0 <= r and r < a.shape[0] and 0 <= c and c < a.shape[1] and PART_INV(FLAT_IDX(r, c)) >= len(flat) - k, '
+                 'top_k_inds[PART_INV(FLAT_IDX(r, c)) - (len(flat) - k)] == FLAT_IDX(r, c) and '
+                 'result[0][PART_INV(FLAT_IDX(r, c)) - (len(flat) - k)] == r and result[1][PART_INV(FLAT_IDX(r, c)) - (len(flat) - k)] == c))'},
+        # hence a cell that is not returned sits before the pivot position
+        {'name': 'unreturned-cells-precede-the-pivot',
+         'stmt': 'forall(lambda r, c: implies(0 <= r and r < a.shape[0] and 0 <= c and c < a.shape[1] and '
+                 'forall(lambda j2: implies(0 <= j2 and j2 < k, result[0][j2] != r or result[1][j2] != c)), PART_INV(FLAT_IDX(r, c)) < len(flat) - k))'},
+        # ... so it is at most the pivot, and every returned cell is at least the pivot
+        {'name': 'unreturned-cells-at-most-the-pivot',
+         'stmt': 'forall(lambda r, c: implies(0 <= r and r < a.shape[0] and 0 <= c and c < a.shape[1] and PART_INV(FLAT_IDX(r, c)) < len(flat) - k, '
+                 'a[r, c] <= flat[top_k_inds[0]]))'},
+        {'name': 'returned-cells-at-least-the-pivot',
+         'stmt': 'forall(lambda j: implies(0 <= j and j < k, flat[top_k_inds[0]] <= flat[top_k_inds[j]] and flat[top_k_inds[j]] == a[result[0][j], result[1][j]]))'},
+    ],
     ensures=['len(result[0]) == k and len(result[1]) == k',
              'forall(lambda j: implies(0 <= j and j < k, 0 <= result[0][j] and result[0][j] < a.shape[0] and 0 <= result[1][j] and result[1][j] < a.shape[1]))',
              'forall(lambda j, j2: implies(0 <= j and j < j2 and j2 < k, result[0][j] != result[0][j2] or result[1][j] != result[1][j2]))',
              'forall(lambda j, r, c: implies(0 <= j and j < k and 0 <= r and r < a.shape[0] and 0 <= c and c < a.shape[1] and '
              'forall(lambda j2: implies(0 <= j2 and j2 < k, result[0][j2] != r or result[1][j2] != c)), a[r, c] <= a[result[0][j], result[1][j]]))',
-             'implies(k <= NFINITE(a), forall(lambda j: implies(0 <= j and j < k, not isneginf(a[result[0][j], result[1][j]]))))'])
-CONTRACTS[(MS_PATH, 'top_k')].public_ensures = list(CONTRACTS[(MS_PATH, 'top_k')].ensures)
-CONTRACTS[(MS_PATH, 'top_k')].notes = 'assumed'
+             ])
+# the pigeon-hole consequence of the four proved clauses (k pairwise different cells, each dominating every cell not returned, and at
+# least k finite cells => no returned cell is -inf) is a counting argument outside SMT: it is stated for callers only and proved as
+# lean/Pigeonhole.lean::topk_no_bot (checked by Lean in the thorough tier of C02)
+PIGEONHOLE = 'implies(k <= NFINITE(a), forall(lambda j: implies(0 <= j and j < k, not isneginf(a[result[0][j], result[1][j]]))))'
+CONTRACTS[(MS_PATH, 'top_k')].public_ensures = list(CONTRACTS[(MS_PATH, 'top_k')].ensures) + [PIGEONHOLE]
 
 
 def _count_finite(ex, st, a, axis=None, **kw):
@@ -599,7 +619,7 @@ _LADDERS = {
 for _k, _v in _LADDERS.items():
     CONTRACTS[(PATH, _k)].ladder = _v
 
-KEYS = [(PATH, k) for k in ('get_new_prefixes_positions', 'get_old_prefixes_positions', 'find_new_prefixes', 'find_matching',
+KEYS = [(MS_PATH, 'top_k')] + [(PATH, k) for k in ('get_new_prefixes_positions', 'get_old_prefixes_positions', 'find_new_prefixes', 'find_matching',
                              'adjust_for_prefix_joining', DEC + '__call__', DEC + 'get_reduced_last_chars', 'get_continuation_mask',
                              DEC + 'compute_Pb', DEC + 'compute_Pnb', DEC + 'get_reduced_Pc')]
 # language-model bookkeeping (C03)
